@@ -37,6 +37,9 @@ enum Op {
     SetCall(usize),
     /// SET_VRING_CALL without a descriptor: the ring has no call descriptor afterwards
     DropCall(usize),
+    /// SET_VRING_NUM with a size that does not fit 16 bits (the field is 32 bits wide on the
+    /// wire; the Frontend API cannot send it): larger than any maximum, must be refused
+    SetNumWide(usize, u32),
     SetKick(usize),
     ReplaceTable,
     /// per-ring message kind 0..7 with an out-of-range ring index
@@ -123,7 +126,7 @@ fn run_v<V: VringT<GM<()>> + Clone + Send + Sync + 'static>(sim: &Sim, _cfg: &Ru
         let mut ops = Vec::new();
         for _ in 0..n {
             let r = t.draw(nrings as u64) as usize;
-            ops.push(match t.draw(20) {
+            ops.push(match t.draw(21) {
                 0 | 1 => Op::SetNum(r, gen_num(t)),
                 2 => Op::SetBase(r, t.lattice32() as u16),
                 3 | 4 => {
@@ -135,6 +138,11 @@ fn run_v<V: VringT<GM<()>> + Clone + Send + Sync + 'static>(sim: &Sim, _cfg: &Ru
                 }
                 17 => Op::AddrOutside(r, t.draw(3) as u8),
                 18 => Op::DropCall(r),
+                19 => {
+                    let low = *t.pick(&[0u32, 1, 2, 16, 0x100, 0x8000, 0xffff]);
+                    let high = *t.pick(&[1u32, 2, 0x100, 0x8000, 0xffff]);
+                    Op::SetNumWide(r, (high << 16) | low)
+                }
                 5 => Op::GetBase(r),
                 6 | 7 | 8 => Op::Kick(r),
                 9 => {
@@ -351,6 +359,22 @@ fn run_v<V: VringT<GM<()>> + Clone + Send + Sync + 'static>(sim: &Sim, _cfg: &Ru
                 }
                 callfds.push(fd);
                 m[*r].call = Some(callfds.len() - 1);
+            }
+            Op::SetNumWide(r, n) => {
+                let req = spec::FReq::SetVringNum { idx: *r as u32, num: *n };
+                let fd = vmm.raw.as_raw_fd();
+                if fdu::raw_send_segmented(fd, &req.wire(acks), &[], &[], 0).is_err() {
+                    viol("control_message_failed", "SET_VRING_NUM".into(), format!("step {step} {op:?}: send failed"));
+                }
+                if acks {
+                    if let Ok((b, _)) = fdu::raw_recv_exact(fd, spec::HDR + 8, "vmm.recv") {
+                        if b.len() == spec::HDR + 8 && spec::g64(&b, spec::HDR) == 0 {
+                            viol("bad_ring_size_accepted", format!("{n:#x}"), format!("step {step}: SET_VRING_NUM({r}, {n:#x}) acknowledged as successful; maximum is {max_q}"));
+                        }
+                    }
+                }
+                // refused: the ring keeps its size (sampled at the next kick); the daemon closes
+                dead = true;
             }
             Op::DropCall(r) => {
                 // the Frontend API always passes a descriptor: raw bytes on the same connection
